@@ -20,15 +20,15 @@ Qed.
 Lemma percent_spec full now cap : dec_ok cap = true ->
   percent_of (option_map MI full) (option_map MI now) (to_fres k_dec cap) =
   Val (match full, now with
-       | Some f, Some n => Some (if f =? 0 then 0%Q else (100 * inject_Z n / inject_Z f)%Q)
-       | _, _ => match cap with Present ds => Some (inject_Z (dec_val ds)) | _ => None end
+       | Some f, Some n => Some (RFloat (if f =? 0 then 0%Q else (100 * inject_Z n / inject_Z f)%Q))
+       | _, _ => match cap with Present ds => Some (RInt (dec_val ds)) | _ => None end
        end).
 Proof.
   intros Hc. unfold percent_of.
   assert (C : match to_fres k_dec cap with
-              | FC c => do p <- py_int c; Val (if p =? -1 then None else Some (inject_Z p))
+              | FC c => do p <- py_int c; Val (if p =? -1 then None else Some (RInt p))
               | _ => Val None
-              end = Val (match cap with Present ds => Some (inject_Z (dec_val ds)) | _ => None end)).
+              end = Val (match cap with Present ds => Some (RInt (dec_val ds)) | _ => None end)).
   { destruct cap as [ds| |]; cbn [to_fres]; auto. unfold dec_ok in Hc. cbn [kf_ok] in Hc.
     unfold k_dec, py_int. rewrite parse_int_nl by exact Hc. cbn [of_option obind].
     assert (0 <= dec_val ds).
@@ -45,10 +45,10 @@ Qed.
 
 Lemma tte_part tte : match tte with Some (MI t) => t < 0 | Some (MB _) => False | None => True end ->
   match tte with
-  | Some (MI t) => Val (if t * 60 <? 0 then POWER_TIME_UNKNOWN else t * 60)
-  | Some (MB b) => do s <- py_int (concat (repeat b 60)); Val (if s <? 0 then POWER_TIME_UNKNOWN else s)
-  | None => Val POWER_TIME_UNKNOWN
-  end = Val POWER_TIME_UNKNOWN.
+  | Some (MI t) => Val (if t * 60 <? 0 then RUnknown else RSecs (t * 60))
+  | Some (MB b) => do s <- py_int (concat (repeat b 60)); Val (if s <? 0 then RUnknown else RSecs s)
+  | None => Val RUnknown
+  end = Val RUnknown.
 Proof.
   destruct tte as [[t|b]|]; intros H; [|contradiction|reflexivity].
   assert (t * 60 <? 0 = true) as -> by lia. reflexivity.
@@ -59,10 +59,10 @@ Lemma secs_spec plugged now power tte :
    \/ (exists n w, now = Some n /\ power = Some w)) ->
   secs_of false plugged (option_map MI now) (option_map MI power) tte =
   Val (match plugged with
-       | Some true => POWER_TIME_UNLIMITED
+       | Some true => RUnlimited
        | _ => match now, power with
-              | Some n, Some w => if w =? 0 then POWER_TIME_UNKNOWN else Z.quot (n * 3600) (Z.abs w)
-              | _, _ => POWER_TIME_UNKNOWN
+              | Some n, Some w => if w =? 0 then RUnknown else RSecs (Z.quot (n * 3600) (Z.abs w))
+              | _, _ => RUnknown
               end
        end).
 Proof.
@@ -83,14 +83,70 @@ Proof.
        b_time_to_empty b_capacity b_status].
   rewrite !multi_alt by assumption. rewrite percent_spec by exact Hcap. cbn [obind].
   destruct (match spec_salt (kb_full b), spec_salt (kb_now b) with
-            | Some f, Some n => Some (if f =? 0 then 0%Q else (100 * inject_Z n / inject_Z f)%Q)
-            | _, _ => match kb_capacity b with Present ds => Some (inject_Z (dec_val ds)) | _ => None end
+            | Some f, Some n => Some (RFloat (if f =? 0 then 0%Q else (100 * inject_Z n / inject_Z f)%Q))
+            | _, _ => match kb_capacity b with Present ds => Some (RInt (dec_val ds)) | _ => None end
             end) as [p|]; [|reflexivity].
   rewrite plugged_spec. rewrite secs_spec; [reflexivity|].
   unfold tte_unused in Ht. apply orb_true_iff in Ht as [Ht|Ht].
   - left. rewrite multi_one by exact Htte. destruct (kb_tte b) as [x| |]; [lia|exact I|exact I].
   - right. destruct (spec_salt (kb_now b)) as [n|]; [|discriminate].
     destruct (spec_salt (kb_power b)) as [w|]; [|discriminate]. eauto.
+Qed.
+
+(* the TYPES of the answer: secsleft is the constant POWER_TIME_UNLIMITED exactly when plugged, a plain int exactly when
+   it was computed from now and a non-zero power, the constant POWER_TIME_UNKNOWN otherwise; percent is a float when
+   computed from now/full and the kernel's int when it is the "capacity" attribute *)
+Lemma spec_battery_types b ac0 ac r : spec_battery b ac0 ac = Some r ->
+  (bt_secsleft r = RUnlimited <-> bt_plugged r = Some true) /\
+  (forall z, bt_secsleft r = RSecs z <->
+     bt_plugged r <> Some true /\ exists n w, spec_salt (kb_now b) = Some n /\ spec_salt (kb_power b) = Some w /\
+                                            w <> 0 /\ z = Z.quot (n * 3600) (Z.abs w)) /\
+  (forall q, bt_percent r = RFloat q -> exists f n, spec_salt (kb_full b) = Some f /\ spec_salt (kb_now b) = Some n) /\
+  (forall z, bt_percent r = RInt z -> exists ds, kb_capacity b = Present ds /\ z = dec_val ds).
+Proof.
+  unfold spec_battery. intros H.
+  destruct (match spec_salt (kb_full b), spec_salt (kb_now b) with
+            | Some f, Some n => Some (RFloat (if f =? 0 then 0%Q else (100 * inject_Z n / inject_Z f)%Q))
+            | _, _ => match kb_capacity b with Present ds => Some (RInt (dec_val ds)) | _ => None end
+            end) as [p|] eqn:Ep; [|discriminate].
+  inversion H; subst r; clear H. cbn [bt_secsleft bt_plugged bt_percent].
+  split; [|split; [|split]].
+  - destruct (spec_plugged ac0 ac (kb_status b)) as [[|]|]; [tauto| |];
+      (split; [|discriminate]);
+      destruct (spec_salt (kb_now b)), (spec_salt (kb_power b)) as [w|]; try discriminate;
+      destruct (w =? 0); discriminate.
+  - intros z. destruct (spec_plugged ac0 ac (kb_status b)) as [[|]|].
+    + split; [discriminate|]. intros [C _]. now contradiction C.
+    + destruct (spec_salt (kb_now b)) as [n|], (spec_salt (kb_power b)) as [w|];
+        try (split; [discriminate|intros [_ [n' [w' [E1 [E2 _]]]]]; discriminate]).
+      destruct (Z.eqb_spec w 0) as [->|Hne].
+      * split; [discriminate|]. intros [_ [n' [w' [_ [E2 [C _]]]]]]. inversion E2. congruence.
+      * split.
+        -- intros E. inversion E. split; [discriminate|]. exists n, w. auto.
+        -- intros [_ [n' [w' [E1 [E2 [_ ->]]]]]]. inversion E1. inversion E2. reflexivity.
+    + destruct (spec_salt (kb_now b)) as [n|], (spec_salt (kb_power b)) as [w|];
+        try (split; [discriminate|intros [_ [n' [w' [E1 [E2 _]]]]]; discriminate]).
+      destruct (Z.eqb_spec w 0) as [->|Hne].
+      * split; [discriminate|]. intros [_ [n' [w' [_ [E2 [C _]]]]]]. inversion E2. congruence.
+      * split.
+        -- intros E. inversion E. split; [discriminate|]. exists n, w. auto.
+        -- intros [_ [n' [w' [E1 [E2 [_ ->]]]]]]. inversion E1. inversion E2. reflexivity.
+  - intros q E. subst p. destruct (spec_salt (kb_full b)) as [f|], (spec_salt (kb_now b)) as [n|]; eauto;
+      destruct (kb_capacity b); discriminate.
+  - intros z E. subst p. destruct (spec_salt (kb_full b)) as [f|], (spec_salt (kb_now b)) as [n|]; try discriminate;
+      destruct (kb_capacity b) as [ds| |]; try discriminate; inversion Ep; eauto.
+Qed.
+
+Theorem battery_types b ac0 ac r : kbat_ok b = true -> tte_unused b = true ->
+  battery_of (bat_files b) (to_fres k_online ac0) (to_fres k_online ac) = Val (Some r) ->
+  (bt_secsleft r = RUnlimited <-> bt_plugged r = Some true) /\
+  (forall z, bt_secsleft r = RSecs z <->
+     bt_plugged r <> Some true /\ exists n w, spec_salt (kb_now b) = Some n /\ spec_salt (kb_power b) = Some w /\
+                                            w <> 0 /\ z = Z.quot (n * 3600) (Z.abs w)) /\
+  (forall q, bt_percent r = RFloat q -> exists f n, spec_salt (kb_full b) = Some f /\ spec_salt (kb_now b) = Some n) /\
+  (forall z, bt_percent r = RInt z -> exists ds, kb_capacity b = Present ds /\ z = dec_val ds).
+Proof.
+  intros Hok Ht H. rewrite battery_values in H by assumption. inversion H as [E]. exact (spec_battery_types b ac0 ac r E).
 Qed.
 
 (* which entry: only battery-named entries count; none -> None *)
@@ -208,8 +264,8 @@ Definition neg_current_witness : kbat :=
      kb_tte := Present (sn SgMinus (bs "1")); kb_capacity := Present (bs "75"); kb_status := Present StDischarging |}.
 Theorem battery_negative_power_refuted :
   exists b r r', kbat_ok b = true /\ tte_unused b = true /\
-    battery_of_at true (bat_files b) FAbsent FAbsent = Val (Some r) /\ bt_secsleft r = -10800 /\
-    spec_battery b Absent Absent = Some r' /\ bt_secsleft r' = 10800 /\ bt_percent r = bt_percent r' /\
+    battery_of_at true (bat_files b) FAbsent FAbsent = Val (Some r) /\ bt_secsleft r = RSecs (-10800) /\
+    spec_battery b Absent Absent = Some r' /\ bt_secsleft r' = RSecs 10800 /\ bt_percent r = bt_percent r' /\
     battery_of (bat_files b) FAbsent FAbsent = Val (Some r').
 Proof.
   exists neg_current_witness. eexists. eexists. split; [reflexivity|]. split; [reflexivity|].
@@ -224,5 +280,5 @@ Example battery_example :
               kb_full := {| s_first := Absent; s_second := Present (sn SgNone (bs "4000000")) |};
               kb_tte := Present (sn SgMinus (bs "1")); kb_capacity := Present (bs "75"); kb_status := Present StDischarging |} in
   kbat_ok b = true /\ tte_unused b = true /\
-  spec_battery b Absent Absent = Some {| bt_percent := (100 * 3000000 / 4000000)%Q; bt_secsleft := 10800; bt_plugged := Some false |}.
+  spec_battery b Absent Absent = Some {| bt_percent := RFloat (100 * 3000000 / 4000000)%Q; bt_secsleft := RSecs 10800; bt_plugged := Some false |}.
 Proof. cbv zeta. repeat split. Qed.
